@@ -278,6 +278,26 @@ fn parse_rules(
                 }
             }
         }
+        if !top_level {
+            // a declaration directly inside a group rule (`@scope (.card) { padding: 10rpx; .a {} }`)
+            if let Some(has_semicolon) = declaration_ahead(input) {
+                // (also leaves a block that was skipped, so that positions are those of the tokens)
+                input.skip_whitespace();
+                input
+                    .parse_until_before::<_, (), ()>(cssparser::Delimiter::Semicolon, |sub_input| {
+                        convert_rpx_in_tokens(&mut StepParser::wrap(sub_input), ss, false).ok();
+                        Ok(())
+                    })
+                    .ok();
+                if has_semicolon {
+                    if let Ok(next) = input.next() {
+                        ss.append_token(next, input, None);
+                    }
+                }
+                at_file_start = false;
+                continue;
+            }
+        }
         let keeps_file_start = match input.peek() {
             Ok(peek) => match &*peek {
                 Token::AtKeyword(x) => {
@@ -292,6 +312,32 @@ fn parse_rules(
         }
         at_file_start = at_file_start && keeps_file_start;
     }
+}
+
+/// Whether a declaration (an identifier, a colon, and no `{}` block before the next `;`) comes next;
+/// tells whether it is ended by a semicolon. The parser is left where it was.
+fn declaration_ahead(input: &mut StepParser) -> Option<bool> {
+    let state = input.state();
+    let ret = (|| {
+        if !matches!(&*input.next().ok()?, Token::Ident(_)) {
+            return None;
+        }
+        if !matches!(&*input.next().ok()?, Token::Colon) {
+            return None;
+        }
+        loop {
+            match input.next() {
+                Ok(next) => match &*next {
+                    Token::Semicolon => return Some(true),
+                    Token::CurlyBracketBlock => return None,
+                    _ => {}
+                },
+                Err(_) => return Some(false),
+            }
+        }
+    })();
+    input.reset(&state);
+    ret
 }
 
 fn parse_at_rule(
@@ -891,10 +937,23 @@ fn convert_rpx_in_block(
     }
     input
         .parse_nested_block::<_, (), ()>(|nested_input| {
-            let input = &mut StepParser::wrap(nested_input);
+            convert_rpx_in_tokens(&mut StepParser::wrap(nested_input), ss, in_calc).ok();
+            Ok(())
+        })
+        .ok();
+}
+
+/// Copy the tokens of a declaration list (or of one declaration) up to the end of the given parser.
+fn convert_rpx_in_tokens(
+    input: &mut StepParser,
+    ss: &mut StyleSheetTransformer,
+    in_calc: bool,
+) -> Result<(), ()> {
+    {
+        {
             let mut prev_token: Option<StepToken> = None;
             loop {
-                let next = input.next_including_whitespace()?;
+                let next = input.next_including_whitespace().map_err(|_| ())?;
                 match &*next {
                     Token::CurlyBracketBlock
                     | Token::SquareBracketBlock
@@ -974,8 +1033,8 @@ fn convert_rpx_in_block(
                 }
                 prev_token = Some(next);
             }
-        })
-        .ok();
+        }
+    }
 }
 
 #[cfg(test)]
